@@ -83,7 +83,8 @@ def gen_scan(rng, n, prefix, tier):
     # sampled beyond the small scope, with arbitrary buffering
     for _ in range(n):
         ln = rng.randrange(0, 40)
-        data = bytes(rng.choice([32, 32, 9, 13, 10, 120, 99, 0, 255]) for _ in range(ln))
+        # beyond ASCII: bytes whose low seven bits are a blank, CR or LF must not be classified as such
+        data = bytes(rng.choice([32, 32, 9, 13, 10, 120, 99, 0, 255, 0xa0, 0x89, 0x8a, 0x8d, 0x20 ^ 0x40, 0x09 ^ 0x40]) for _ in range(ln))
         off = rng.randrange(0, ln + 3)
         fn = rng.choice(["blanks", "newline", "nextnl", "fixed"])
         pat = rng.choice(pats + [data[off:off + rng.randrange(0, 6)], data[off:off + 3] + b"!"])
